@@ -27,6 +27,7 @@ struct IWorld {
     virtual void kernelObjects(std::vector<const void*>& out) = 0;
     virtual bool counters(std::vector<std::array<long, 7>>& perKernel, std::array<long, 7>& merged, uint64_t mergeSeed) = 0;
     virtual bool isTaskBased() const = 0;
+    virtual long effectiveBlockSize() = 0;      // the block size the tree actually uses (the automatic estimate is made once, at construction)
     virtual long query(uint64_t seed) = 0;     // lookups through the tree's public find functions; returns the number of wrong answers
 };
 
